@@ -732,7 +732,10 @@ fn check_fwd(c: &FwdCase) -> Verdict {
     let inner = match c.extra {
         0 => "$args...",
         1 => "0, $args...",
-        _ => "$args..., $m...",
+        2 => "$args..., $m...",
+        // an explicit keyword next to the forwarded list (spelled with `_`)
+        3 => "$args..., $b_b: 63",
+        _ => "$b-b: 63, $args...",
     };
     let splat: Vec<(String, i64)> = if c.extra == 2 { vec![("b-b".to_string(), 62)] } else { vec![] };
     let outer = outer.join(", ");
@@ -747,7 +750,13 @@ fn check_fwd(c: &FwdCase) -> Verdict {
             "$m: (b-b: 62);\n@mixin w($args...) {{ @content({inner}); }}\na {{ @include w({outer}) using ({sig}) {{ {body} }} }}\n"
         ),
     };
-    let readings = merge_named(&named, &splat);
+    let readings = if c.extra >= 3 {
+        // the call's own keyword and a keyword carried by the forwarded argument list:
+        // an error, or the forwarded one wins (dart-sass); never the explicit one
+        merge_named(&[("b-b".to_string(), 63)], &named)
+    } else {
+        merge_named(&named, &splat)
+    };
     let (accept, variants) = outcomes(defaults, rest, &pos, &readings);
     judge_bind(c.kind, n, &src, &accept, &variants)
 }
@@ -1190,7 +1199,7 @@ fn main() {
         for sig in 0..FWD_SIGS.len() as u8 {
             for npos in 0..=3u8 {
                 for named in 0..8u8 {
-                    for extra in 0..3u8 {
+                    for extra in 0..5u8 {
                         for kind in KINDS {
                             cases.push(FwdCase { kind, sig, npos, named, extra });
                         }
@@ -1200,7 +1209,7 @@ fn main() {
         }
         ck.run(
             "forward",
-            "6 signatures x 0..3 positional x named subsets of {a-a,b-b,z-z} x 3 forwarding forms x 3 kinds",
+            "6 signatures x 0..3 positional x named subsets of {a-a,b-b,z-z} x 5 forwarding forms (incl. an explicit keyword before/after the forwarded list) x 3 kinds",
             cases.into_iter(),
             check_fwd,
         );
